@@ -29,6 +29,10 @@ pub struct FileG {
 	pub includes: Vec<Inc>,
 	/// global options set in this file (option name -> value)
 	pub global: BTreeMap<String, Value>,
+	/// the file lives in another directory (<root>/real/x/) and its modelled path is a symbolic link to it; the relative includes it
+	/// contains are written relative to the real file (paths are made canonical before a file is read)
+	#[serde(default)]
+	pub linked: bool,
 }
 
 #[derive(Clone, Debug, Serialize, Deserialize)]
@@ -136,7 +140,7 @@ fn global_table() -> impl Strategy<Value = BTreeMap<String, Value>> {
 pub fn strategy() -> impl Strategy<Value = Case> {
 	let n_files = 1usize..=7;
 	n_files.prop_flat_map(|nf| {
-		let file = (0usize..3, proptest::collection::vec((0u8..10, 0usize..nf, 0usize..3, any::<bool>()), 0..4), prop_oneof![2 => Just(None), 3 => global_table().prop_map(Some)]);
+		let file = (0usize..3, proptest::collection::vec((0u8..10, 0usize..nf, 0usize..3, any::<bool>()), 0..4), prop_oneof![2 => Just(None), 3 => global_table().prop_map(Some)], prop_oneof![5 => Just(false), 1 => Just(true)]);
 		let files = proptest::collection::vec(file, nf);
 		let endpoints = proptest::collection::vec((0usize..nf, levels(), proptest::collection::vec(0usize..3, 0..2), proptest::option::of(proptest::collection::vec("[a-z]{2,5}\\.pem", 1..2))), 1..=2);
 		let certs = proptest::collection::vec(
@@ -153,7 +157,7 @@ pub fn strategy() -> impl Strategy<Value = Case> {
 #[allow(clippy::too_many_arguments, clippy::type_complexity)]
 fn build_case(
 	nf: usize,
-	files: Vec<(usize, Vec<(u8, usize, usize, bool)>, Option<BTreeMap<String, Value>>)>,
+	files: Vec<(usize, Vec<(u8, usize, usize, bool)>, Option<BTreeMap<String, Value>>, bool)>,
 	endpoints: Vec<(usize, Levels, Vec<usize>, Option<Vec<String>>)>,
 	certs: Vec<(usize, usize, usize, Vec<usize>, Levels, Option<String>, BTreeMap<String, String>, Option<&'static str>)>,
 	place: Vec<usize>,
@@ -165,7 +169,8 @@ fn build_case(
 	let mut fs: Vec<FileG> = files
 		.into_iter()
 		.enumerate()
-		.map(|(i, (dir, incs, global))| FileG {
+		.map(|(i, (dir, incs, global, linked))| FileG {
+			linked,
 			dir: if i == 0 { 0 } else { dir },
 			name: format!("{}.toml", (b'a' + i as u8) as char),
 			includes: incs
@@ -185,8 +190,9 @@ fn build_case(
 		fs[0].includes.push(Inc::File { target: 1 + pick % (nf - 1), absolute: pick % 2 == 0 });
 		fs[0].includes.push(Inc::Glob { dir: pick % 3, absolute: pick % 3 == 0 });
 	}
-	// table/array-valued global options in at most one file (merge semantics of tables are not documented)
-	for opt in ["env", "root_certificates"] {
+	// the table-valued global option in at most one file (merge semantics of tables are not documented); root_certificates, an array, is
+	// an option like the others: a later definition replaces the earlier one
+	for opt in ["env"] {
 		let mut seen = false;
 		for f in fs.iter_mut() {
 			if f.global.contains_key(opt) {
@@ -416,6 +422,15 @@ fn rel(from_dir: usize, to_dir: usize, name: &str) -> String {
 
 fn include_text(case: &Case, root: &str, from: usize, inc: &Inc) -> String {
 	let fd = case.files[from].dir;
+	if case.files[from].linked {
+		// relative to <root>/real/x/
+		let under = |d: usize, n: &str| if DIRS[d].is_empty() { format!("../../cfg/{n}") } else { format!("../../cfg/{}/{n}", DIRS[d]) };
+		match inc {
+			Inc::File { target, absolute: false } => return under(case.files[*target].dir, &case.files[*target].name),
+			Inc::Glob { dir, absolute: false } => return under(*dir, "*.toml"),
+			_ => {}
+		}
+	}
 	match inc {
 		Inc::File { target, absolute } => {
 			if *absolute {
@@ -528,7 +543,15 @@ fn write_tree(case: &Case, root: &str) -> String {
 		if !cs.is_empty() {
 			doc.insert("certificate".into(), json!(cs));
 		}
-		let _ = std::fs::write(file_path(case, root, fi), toml_out::document(&Value::Object(doc)));
+		let text = toml_out::document(&Value::Object(doc));
+		if f.linked {
+			let _ = std::fs::create_dir_all(format!("{root}/real/x"));
+			let real = format!("{root}/real/x/f{fi}.toml");
+			let _ = std::fs::write(&real, text);
+			let _ = std::os::unix::fs::symlink(&real, file_path(case, root, fi));
+		} else {
+			let _ = std::fs::write(file_path(case, root, fi), text);
+		}
 	}
 	file_path(case, root, 0)
 }
@@ -695,7 +718,7 @@ pub fn exec(case: &Case) -> Outcome {
 }
 
 pub fn run(ctx: &Ctx, rep: &mut Report) {
-	rep.rule = "configuration trees: main file + 0..6 files in 3 directories, include entries by relative or absolute path, `dir/*.toml` globs, patterns matching nothing, repeated and cyclic includes; every one of the 15 global options present/absent per file ([global] split over several files; table/array-valued options in at most one file); renew_delay, random_early_renew, file_name_format present/absent at certificate, endpoint and global level with distinct values; directory at certificate/global; 1..2 endpoints, 2 accounts, 3 hooks, 2 (nested) groups, 3 rate limits, 1..3 certificates placed in random files (possibly unread ones); with probability 7/16 one injected defect: dangling endpoint / account / hook / group member / rate limit / account hook, duplicate certificate id. Executed by MainEventLoop::new in the probe (one process per case). Oracle: independent resolver over the generator's structure: load succeeds iff nothing a read certificate or account depends on is unresolved and no id is duplicated; dump == most specific level else built-in default; each file read once (pre-order), later [global] definitions override earlier ones option by option; hooks expanded in declaration order; root certificates = command line + endpoint + global. Non-trivial = >= 2 read files define [global] or a setting is given at >= 2 levels.".into();
+	rep.rule = "configuration trees: main file + 0..6 files in 3 directories, include entries by relative or absolute path, `dir/*.toml` globs, patterns matching nothing, repeated and cyclic includes, one file in six reached through a symbolic link from another directory (its relative includes are relative to the real file); every one of the 15 global options present/absent per file ([global] split over several files; the table-valued option env in at most one file); renew_delay, random_early_renew, file_name_format present/absent at certificate, endpoint and global level with distinct values; directory at certificate/global; 1..2 endpoints, 2 accounts, 3 hooks, 2 (nested) groups, 3 rate limits, 1..3 certificates placed in random files (possibly unread ones); with probability 7/16 one injected defect: dangling endpoint / account / hook / group member / rate limit / account hook, duplicate certificate id. Executed by MainEventLoop::new in the probe (one process per case). Oracle: independent resolver over the generator's structure: load succeeds iff nothing a read certificate or account depends on is unresolved and no id is duplicated; dump == most specific level else built-in default; each file read once (pre-order), later [global] definitions override earlier ones option by option; hooks expanded in declaration order; root certificates = command line + endpoint + global. Non-trivial = >= 2 read files define [global] or a setting is given at >= 2 levels.".into();
 	rep.assume("built-in defaults are the compile-time values of the build made by the harness (VARLIBDIR under /verif/.sys)");
 	run_replays::<Case>(ctx, rep, "tree", &exec);
 	if ctx.replay.is_some() {
